@@ -1,6 +1,7 @@
 package props
 
 import (
+	"context"
 	"fmt"
 
 	"github.com/hashicorp/hcl/v2"
@@ -352,6 +353,58 @@ func c03World(cs *explore.Case, c *report.Collector, l *report.Local, bound int,
 		if seenKind[q.Kind] < 2 && (!isPosKindP(q.Kind) || i%3 == 1 || len(qs) < 40) {
 			seenKind[q.Kind]++
 			reps = append(reps, i)
+		}
+	}
+	// (b3) one PathDecoder kept for a whole sequence of queries (a client need not ask for a new one per request):
+	// its prefill setting is chosen once, the queries of that setting and all others run on it in both orders
+	for _, prefill := range []bool{false, true} {
+		for _, reversed := range []bool{false, true} {
+			pw := world.Build(cs.Spec())
+			pd, err := pw.Decoder.Path(pw.Paths[0])
+			if err != nil {
+				continue
+			}
+			pd.PrefillRequiredFields = prefill
+			order := append([]int{}, reps...)
+			// every completion position of the chosen setting, not only the representatives
+			for i, q := range qs {
+				if (q.Kind == run.Completion && !prefill) || (q.Kind == run.CompletionPrefill && prefill) {
+					order = append(order, i)
+				}
+			}
+			if reversed {
+				for a, b := 0, len(order)-1; a < b; a, b = a+1, b-1 {
+					order[a], order[b] = order[b], order[a]
+				}
+			}
+			for _, i := range order {
+				q := qs[i]
+				if (q.Kind == run.Completion && prefill) || (q.Kind == run.CompletionPrefill && !prefill) || q.Path != 0 {
+					continue
+				}
+				switch q.Kind {
+				case run.SymbolsWS, run.GotoDef, run.FindRefs, run.CodeLens:
+					continue // not served by a PathDecoder
+				}
+				var res run.Result
+				if p := run.SafeCall(func() {
+					if q.Kind == run.Completion || q.Kind == run.CompletionPrefill {
+						v, err := pd.CompletionAtPos(context.Background(), q.File, q.Pos)
+						res = run.Result{Val: v, Err: err}
+					} else {
+						res = run.CallPD(pd, q)
+					}
+				}); p != nil {
+					continue
+				}
+				got := run.CanonResult(res)
+				l.Count("calls", 1)
+				l.Count("history_transitions", 1)
+				if got != first[i] {
+					c.Add(&report.Violation{Clause: "history-dependence", Site: kindClass(q.Kind) + ":on-a-kept-path-decoder", Check: "history", SchemaID: cs.Entry.ID, Files: cs.Files(), Query: report.J(q),
+						Detail: fmt.Sprintf("%s on a PathDecoder that served other queries before (prefill %v) differs from the same query on a fresh one\n fresh: %s\n kept:  %s\nfile:\n%s", q, prefill, diffWindow(first[i], got), diffWindow(got, first[i]), cs.Text)})
+				}
+			}
 		}
 	}
 	if !thorough && len(cs.Text) > 120 {
